@@ -142,6 +142,28 @@ def validate_traces(module, cfg, traces, env=None, shards=1, timeout=3600, tag=N
     if n == 0:
         return dict(accepted=0, rejected=[], known=[], n=0, wall_s=0.0, generated=0, distinct=0, coverage={})
     shards = max(1, min(shards, n))
+    # very large batches are validated in rounds so that no single TLC instance has to parse more than ~48 MB of JSON
+    if n > shards:
+        step = max(1, n // 400)
+        approx = len(json.dumps(traces[::step], separators=(",", ":"))) * step
+        rounds = int(approx // (shards * 48 * 1024 * 1024)) + 1
+        if rounds > 1:
+            merged = dict(accepted=0, rejected=[], known=[], n=n, wall_s=0.0, generated=0, distinct=0, coverage={})
+            size = (n + rounds - 1) // rounds
+            for k in range(rounds):
+                a = k * size
+                part = validate_traces(module, cfg, traces[a:a + size], env=env, shards=shards, timeout=timeout, tag=tag, deque=deque,
+                                       heap=heap, extra=extra)
+                merged["accepted"] += part["accepted"]
+                merged["rejected"] += [(i + a, l) for i, l in part["rejected"]]
+                merged["known"] += [(i + a, w) for i, w in part["known"]]
+                merged["wall_s"] += part["wall_s"]
+                merged["generated"] += part["generated"]
+                merged["distinct"] += part["distinct"]
+                for ck, cv in part["coverage"].items():
+                    old = merged["coverage"].get(ck)
+                    merged["coverage"][ck] = cv if old is None else [old[0] + cv[0], old[1] + cv[1]] if isinstance(cv, (list, tuple)) else cv
+            return merged
     wd = workdir(tag or module)
     bounds = [(i * n // shards, (i + 1) * n // shards) for i in range(shards)]
     procs = []
